@@ -30,7 +30,9 @@ LevelSets == UNION {{<<0>> \o s \o <<Den>> : s \in IncSeqs(K - 1, 1, Den - 1)} :
 Profiles(K) == { [k \in 1..K |-> 3],                              \* constant
                  [k \in 1..K |-> 1 + k],                          \* increasing to the surface
                  [k \in 1..K |-> 2 + K - k],                      \* decreasing
-                 [k \in 1..K |-> IF k % 2 = 0 THEN 2 ELSE 4] }    \* zig-zag
+                 [k \in 1..K |-> IF k % 2 = 0 THEN 2 ELSE 4],     \* zig-zag
+                 [k \in 1..K |-> IF k <= 2 THEN 2 ELSE k],         \* isothermal top two layers over a stratified rest
+                 [k \in 1..K |-> IF k >= K - 1 THEN 5 ELSE k] }    \* ... and isothermal bottom two layers
 Kappas == {<<2, 7>>, <<1, 4>>}
 
 K == Len(cfg.b) - 1
